@@ -189,6 +189,49 @@ def run(ctx):
                         pushers.add(b.defpath.split("::{")[0])
         r.check(all("PlaneBuilder" in x for x in pushers) and pushers, "PlaneModel.routes/only-the-builder-adds-routes", "-", "routes are added only by %s" % sorted(x.split("::")[-1] for x in pushers), "routes are added outside the builder: %s" % sorted(pushers))
 
+    with ctx.rule("C18.R4b", "T5", "every meta route the server registers is tested against the user's routes", floor=5) as r:
+        si = ctx.crate("swimos_introspection")
+        regs = [b for b in si.all_bodies() if any(c.name == "register" for c in b.calls) and "::tests" not in b.defpath]
+        if not regs:
+            raise AnchorMissing("swimos_introspection: no function registers a meta route")
+
+        def pattern_fns(body, op):
+            return {c.name for c in body.derives_from_call(op, lambda c: "swimos_introspection::route::" in (c.defpath or ""))}
+        registered = {}
+        for b in regs:
+            ctx.saw(b)
+            for c in b.calls:
+                if c.name == "register" and len(c.args) >= 2:
+                    fs = pattern_fns(b, c.args[1])
+                    r.check(bool(fs), "%s/register/pattern-from-route-module#%d" % (b.defpath.split("::")[-1], len(registered)), c.loc(), "the registered meta pattern is %s" % sorted(fs), "a meta route is registered with a pattern that does not come from swimos_introspection::route: %s" % describe_operand(b, c.args[1])[:80])
+                    for f in fs:
+                        registered[f] = c.loc()
+        cm = ctx.saw(sa.fn(name="check_meta_collisions", self_adt="plane::PlaneModel"))
+        tested = {}
+        for c in cm.calls:
+            if c.name == "are_ambiguous":
+                fs = pattern_fns(cm, c.args[0]) | pattern_fns(cm, c.args[1])
+                other = [describe_operand(cm, a) for a in c.args if not pattern_fns(cm, a)]
+                ok_user = any("self.routes" in o for o in other)
+                for f in fs:
+                    if ok_user:
+                        tested[f] = c
+        for f, loc in sorted(registered.items()):
+            r.check(f in tested, "check_meta_collisions/tests-%s" % f, tested[f].loc() if f in tested else where(cm), "the registered meta pattern %s() is compared with every user route" % f,
+                    "the meta route %s() is registered (%s) but check_meta_collisions never compares it with the user's routes: a user route that also matches it is accepted" % (f, loc))
+        # a positive test makes the check fail: the route is recorded and a non-empty record is an error
+        pushes = [c for c in cm.calls if c.name == "push" and "routes" == describe_operand(cm, c.args[0]).lstrip("&").replace("mut ", "")]
+        heads = {c.block for c in cm.calls if c.name == "next" and "self.routes" in describe_operand(cm, c.args[0])}
+        for f, c in sorted(tested.items()):
+            ok = bool(heads) and any(cm.reaches(tr, heads) and cm.must_pass([tr], {p_.block for p_ in pushes}, targets=heads)[0] for tr, fa, b in cm.bool_switches_from(c))
+            r.check(ok, "check_meta_collisions/%s-collision-recorded" % f, c.loc(), "when a route is ambiguous with %s() it is recorded before the next route is examined" % f, "a positive are_ambiguous(%s(), route) does not record the route: the check can still return Ok" % f)
+        errs = [i for i, j, p_, rv, line in cm.assigns() if describe_rvalue(cm, rv).startswith("Result::Err(")]
+        oks = [i for i, j, p_, rv, line in cm.assigns() if describe_rvalue(cm, rv).startswith("Result::Ok(")]
+        r.check(len(errs) == 1 and len(oks) == 1 and any(d.startswith("is_empty(routes)") and l == "true" for d, l, _ in dom_guards(cm, oks[0])) and any(d.startswith("is_empty(routes)") and l == "false" for d, l, _ in dom_guards(cm, errs[0])),
+                "check_meta_collisions/Err-iff-any-recorded", where(cm), "Err(AmbiguousRoutes) exactly when a route was recorded")
+        callers = [(b, c) for b in sa.all_bodies() for c in b.calls if c.name == "check_meta_collisions"]
+        r.check(len(callers) >= 1 and all(b.try_edges(c) is not None for b, c in callers), "build_server/collision-check-is-propagated", callers[0][1].loc() if callers else "-", "the server builder runs the check and propagates its error with ?", "check_meta_collisions is not called, or its result is dropped")
+
     with ctx.rule("C18.R5", "T9", "panic audit of route_pattern and route_uri", floor=3) as r:
         ALLOW = {
             ("segment_str", "index"): "start..end recorded by the pattern parser at char boundaries of the same string",
